@@ -706,7 +706,7 @@ def explore(ctx, nseq_pinned, nseq_forked, nrace, rng, oracle_only=False):
 
 
 def correspond(ctx):
-    explore(ctx, ctx.n(250, 6000), ctx.n(40, 600), ctx.n(4, 40), ctx.rng)
+    explore(ctx, ctx.n(160, 6000), ctx.n(30, 600), ctx.n(4, 40), ctx.rng)
 
 
 def search(ctx):
